@@ -29,6 +29,14 @@ def detect(sh, case, driver='synthetic'):
     cols = case['table']
     thr = dict(case['thresholds'])
     df = pd.DataFrame({f: np.array(cols[f], dtype=float) for f in FEATS})
+    ix = case.get('index')
+    if ix is not None and len(df):
+        # a stretch / selection of a longer table keeps its row labels: labels are positional in the statement ("first and last
+        # cycle of the table"), whatever the index says
+        n = len(df)
+        df.index = {'offset': pd.RangeIndex(7, 7 + n), 'gaps': pd.Index(np.arange(n) * 3 + 2), 'reversed': pd.Index(np.arange(n)[::-1]),
+                    'strings': pd.Index(['c%d' % i for i in range(n)])}[ix]
+        sh.note('table_index=' + ix)
     out = None
     try:
         with quiet():
@@ -39,6 +47,10 @@ def detect(sh, case, driver='synthetic'):
                    driver)
     collect(sh, case, driver)
     if out is None:
+        return None
+    if ix is not None and (len(out) != len(df) or list(out.index) != list(df.index)):
+        sh.violate(case, {'mechanism': 'row-labels-changed', 'message': 'detect_bursts_cycles returned rows %s for a table with rows %s'
+                                                                         % (list(out.index)[:6], list(df.index)[:6])}, driver)
         return None
     lab = out['is_burst'].to_numpy().astype(bool)
     # raising any threshold or min_n_cycles can only remove labels
@@ -88,7 +100,8 @@ def synth_case(rng, n=None):
         if rng.random() < 0.5:
             r['min_n_cycles'] = r['min_n_cycles'] + int(rng.integers(0, 3))
         raised.append(r)
-    return {'table': cols, 'thresholds': thr, 'raised': raised}
+    index = [None, None, None, 'offset', 'gaps', 'reversed', 'strings'][int(rng.integers(0, 7))]
+    return {'table': cols, 'thresholds': thr, 'raised': raised, 'index': index}
 
 
 def note_case(sh, case, lab):
@@ -134,7 +147,8 @@ def real_case(sh, rng):
                 r[k] = float(min(1., r[k] + rng.choice([0., 1e-9, .1])))
         r['min_n_cycles'] += int(rng.integers(0, 2))
         raised.append(r)
-    c2 = {'table': {f: df[f].to_numpy() for f in FEATS}, 'thresholds': thr, 'raised': raised}
+    c2 = {'table': {f: df[f].to_numpy() for f in FEATS}, 'thresholds': thr, 'raised': raised,
+          'index': [None, 'offset', 'gaps'][int(rng.integers(0, 3))]}
     lab = detect(sh, c2, 'real_table')
     nt = note_case(sh, c2, lab)
     sh.case_done(c2, nt, sample={'rows': len(df), 'thresholds': thr, 'family': case['family']})
